@@ -4,6 +4,9 @@ EXTENDS OvImpl
 DomsA == { <<0, 1>>, <<1, 2, 0>>, <<3>>, <<2, 3>> }
 DomsB == { <<0, 1, 2>>, <<1, 4>>, <<2>> }
 RenA == (0 :> 1) @@ (1 :> 0) @@ (2 :> 2) @@ (3 :> 4) @@ (4 :> 3)
+\* three variables, three equality requests: chains of equalities (a = b, b = c, then a = c must follow), an equality
+\* requested again in the other order (cache), a singleton in the middle of a chain
+DomsC == { <<0, 1>>, <<1, 2>>, <<1>> }
 NoPool == {}
 NoKinds == {}
 =============================================================================
